@@ -37,9 +37,55 @@ func c15edit(t *tree.Tree, edit string) bool {
 			e.AddComment("ee")
 		}
 	case "clearcomments":
+		// truncates the comment slices in place, then appends: a slice that shares its array
+		// with the twin's would overwrite the twin's comments
 		t.ClearComments()
 		for _, n := range t.Nodes() {
 			n.AddComment("only")
+		}
+		for _, e := range t.Edges() {
+			e.AddComment("eonly")
+		}
+	case "clearedgecomments":
+		t.ClearEdgeComments()
+		for _, e := range t.Edges() {
+			e.AddComment("E1")
+			e.AddComment("E2")
+		}
+	case "clearnodecomments":
+		t.ClearNodeComments()
+		for _, n := range t.Nodes() {
+			n.AddComment("N1")
+			n.AddComment("N2")
+		}
+	case "allfields":
+		// every mutable field of every node and branch
+		for i, n := range t.Nodes() {
+			n.SetName(n.Name() + "_" + string(rune('a'+i%26)))
+			n.AddComment("nc")
+			n.SetDepth(7)
+			n.SetId(1000 + i)
+		}
+		for i, e := range t.Edges() {
+			e.SetLength(0.5 + float64(i))
+			e.SetSupport(0.25)
+			e.SetPValue(0.125)
+			e.AddComment("ec2")
+			e.SetId(2000 + i)
+		}
+	case "overwritecomments":
+		// writes through the existing comment slices
+		for _, n := range t.Nodes() {
+			c := n.Comments()
+			for i := range c {
+				c[i] = "W"
+			}
+		}
+		for _, e := range t.Edges() {
+			c := e.Comments()
+			for i := range c {
+				c[i] = "W"
+			}
 		}
 	case "removetip":
 		for _, tip := range t.Tips() {
